@@ -289,7 +289,9 @@ func genC10(tier string, r *rng) {
 	for _, sl := range []string{"HTTP/1.1 101 Switching Protocols", "HTTP/1.1 101", "HTTP/1.1 101 ", "HTTP/1.1 101 x y z", "HTTP/1.0 101 X", "HTTP/1.2 101 X",
 		"HTTP/2.0 101 X", "HTTP/1.1 200 OK", "HTTP/1.1 0101 X", "HTTP/1.1 0:1 X", "HTTP/1.1 10; X", "HTTP/1.1 1:1 X", "HTTP/1.1 :1 X", "HTTP/1.1 18446744073709551717 X",
 		"HTTP/1.1 1e2 X", "HTTP/1.1 +101 X", "HTTP/1.1 -101 X", "HTTP/1.1  101 X", "HTTP/1.1 101\tX", "HTTP/1.; 101 X", "HTTP/1.1", "", "HTTP/1.1 400 Bad Request",
-		"HTTP/1.1 301 Moved", "HTTP/1.1 1010 X", "HTTP/1.1 10 X", "HTTP/1.1 ১০১ X", "http/1.1 101 X", "HTTP/1.10 101 X", "HTTP/01.1 101 X"} {
+		"HTTP/1.1 301 Moved", "HTTP/1.1 1010 X", "HTTP/1.1 10 X", "HTTP/1.1 ১০১ X", "http/1.1 101 X", "HTTP/1.10 101 X", "HTTP/01.1 101 X",
+		// signs, spaces and separators inside the version numbers
+		"HTTP/+1.1 101 X", "HTTP/1.+1 101 X", "HTTP/+1.+1 101 X", "HTTP/-1.1 101 X", "HTTP/1.-1 101 X", "HTTP/1_0.1 101 X", "HTTP/0x1.1 101 X", "HTTP/+1.2 101 X", "HTTP/1.1e0 101 X"} {
 		emit("-", "ws://example.com/", buildResp(sl, base, "\r\n", nil))
 	}
 	// each required header: absent / variants / duplicated
